@@ -941,3 +941,21 @@ proof fn lemma_ascending_push(p: Seq<u32>, v: u32)
     requires strictly_ascending(p), forall|j: int| 0 <= j < p.len() ==> #[trigger] p[j] < v,
     ensures strictly_ascending(p.push(v)),
 { }
+
+// ---- standalone iterator (iter.rs): every stack entry carries its own path, so the invariant is per entry ----
+spec fn zit_entry_ok(n: ZddRef, path: Seq<u32>, br: u8, nodes: Seq<ZddNode>, root: ZddRef) -> bool {
+    &&& valid(n, nodes.len() as int)
+    &&& strictly_ascending(path)
+    &&& forall|j: int| 0 <= j < path.len() ==> (#[trigger] path[j] as int) < top(nodes, n)
+    &&& (br != 0 ==> n is Node)
+    &&& (br == 0 ==> forall|s: Set<u32>| #[trigger] mem(nodes, n, s) ==> mem(nodes, root, path.to_set().union(s)))
+    &&& (br == 1 ==> forall|s: Set<u32>| #[trigger] mem(nodes, nodes[n->Node_0 as int].hi, s)
+                        ==> mem(nodes, root, path.to_set().insert(nodes[n->Node_0 as int].var).union(s)))
+}
+spec fn zit_ok(stack: Seq<(ZddRef, Vec<u32>, u8)>, nodes: Seq<ZddNode>, root: ZddRef) -> bool {
+    forall|k: int| 0 <= k < stack.len() ==> zit_entry_ok(#[trigger] stack[k].0, stack[k].1@, stack[k].2, nodes, root)
+}
+
+spec fn zit_valid(stack: Seq<(ZddRef, Vec<u32>, u8)>, nodes: Seq<ZddNode>) -> bool {
+    forall|k: int| 0 <= k < stack.len() ==> valid(#[trigger] stack[k].0, nodes.len() as int)
+}
